@@ -440,6 +440,46 @@ def _iso_roundtrip(a, pre):
     return {"k": "rt", "text": proj.cps(text), "parsed": _try(P().parse, text)}
 
 
+# ---------------------------------------------------------------- C13
+def _enc_any_duration(d):
+    """pendulum Duration or the compiled parser's Duration record -> {"k":"dur", years, months, r3}"""
+    if isinstance(d, _dt.timedelta):
+        r = enc(d)
+        return r
+    if hasattr(d, "remaining_seconds") and hasattr(d, "years"):
+        td = _dt.timedelta(weeks=d.weeks, days=d.remaining_days if hasattr(d, "remaining_days") else d.days,
+                           hours=d.hours, minutes=d.minutes, seconds=d.remaining_seconds, microseconds=d.microseconds)
+        td = td + _dt.timedelta(days=365 * d.years + 30 * d.months)
+        return {"k": "dur", "cls": type(d).__name__, "years": int(d.years), "months": int(d.months), "r3": proj.td3(td),
+                "weeks": int(d.weeks), "raw": [int(d.weeks), int(d.days), int(d.hours), int(d.minutes), int(d.seconds),
+                                               int(d.microseconds)]}
+    return enc(d)
+
+
+def _try_dur(fn, text):
+    try:
+        r = _enc_any_duration(fn(text))
+        proj.chk(r)
+        return r
+    except Exception as e:  # noqa: BLE001
+        return enc(e)
+
+
+@op("dur_parse")
+def _dur_parse(a, pre):
+    text = proj.uncps(a["text"])
+    py, rs = _lowlevel()
+    r = {"k": "parsed", "top": _try_dur(P().parse, text), "py": _try_dur(py, text)}
+    r["rs"] = _try_dur(rs, text) if rs else r["py"]
+    return r
+
+
+@op("iv_parse")
+def _iv_parse(a, pre):
+    text = proj.uncps(a["t1"]) + "/" + proj.uncps(a["t2"])
+    return P().parse(text)
+
+
 # ---------------------------------------------------------------- execution
 class HarnessTimeout(Exception):
     """the call did not return within OP_TIMEOUT seconds (observed as non-termination)"""
